@@ -240,8 +240,17 @@ def getter_order_agreement(ctx):
             if shapes_s != {doc}:
                 bad.append(f"scan branch returns {sorted(shapes_s)}, documented {doc}")
         # the scan branch's result depends on an iteration over storage (def-use closure of the returned names)
-        def _mentions_storage(e: ast.AST) -> bool:
-            return any(isinstance(x, ast.Attribute) and x.attr == "_storage" for x in ast.walk(e))
+        def _mentions_storage(e: ast.AST, depth: int = 0) -> bool:
+            for x in ast.walk(e):
+                if isinstance(x, ast.Attribute) and x.attr == "_storage":
+                    return True
+                # a private helper of the class that itself walks storage (e.g. a generator of decoded points)
+                if depth == 0 and isinstance(x, ast.Call) and isinstance(x.func, ast.Attribute) and is_self_attr(x.func) and f.cls:
+                    h_ = ctx.prog.lookup_method(f.cls, x.func.attr)
+                    if h_ is not None and h_ is not f and any(
+                            isinstance(l_, (ast.For, ast.comprehension)) and _mentions_storage(l_.iter, 1) for l_ in walk_local(h_.node)):
+                        return True
+            return False
 
         def _fed_by_storage(start: Set[str]) -> bool:
             seen_: Set[str] = set()
@@ -335,7 +344,9 @@ def getter_order_agreement(ctx):
             zname = helper_args[id(r)][1]
         zvals = assignments_to(f, zname.id) if isinstance(zname, ast.Name) else [zname]
         comp_ok = False
+        comp_all = []
         for zv in zvals:
+            comp_ok = False
             zz = zv
             if isinstance(zz, ast.Call) and isinstance(zz.func, ast.Name) and zz.func.id in ("list", "tuple") and len(zz.args) == 1:
                 zz = zz.args[0]
@@ -349,11 +360,15 @@ def getter_order_agreement(ctx):
                 if zargs == [f"self.{S}", f"self.{P}"] and isinstance(tgt, ast.Tuple) and isinstance(elt, ast.Tuple) \
                         and [norm(x) for x in tgt.elts] == [norm(x) for x in elt.elts]:
                     comp_ok = True
-        if not comp_ok:
+            comp_all.append(comp_ok)
+        if not comp_all or not all(comp_all):
             bad.append("zipped pairs are not (timestamp, storage position)")
         if not (key and isinstance(key[0], ast.Lambda) and norm(key[0].body) == f"{key[0].args.args[0].arg}[1]"):
             bad.append("sort key is not the storage position component")
-        if norm(lc.elt) != f"{norm(lc.generators[0].target)}[0]":
+        tg_ = lc.generators[0].target
+        proj_ok = norm(lc.elt) == f"{norm(tg_)}[0]" or (
+            isinstance(tg_, ast.Tuple) and len(tg_.elts) == 2 and isinstance(lc.elt, ast.Name) and norm(tg_.elts[0]) == lc.elt.id)
+        if not proj_ok:
             bad.append("projected component is not the timestamp")
     yield Ob("C07.R4", ["C07"], f"{f.qual} | restores storage order", not bad,
              "; ".join(bad) if bad else "pairs (timestamp, position) sorted by position, timestamp projected", f.loc())
